@@ -74,7 +74,8 @@ def jobs_for(tier, rep):
     cfgkeys = [gen.cfg_key(c) for c in gen.BASE_CONFIGS]
     extra = gen.sample([gen.cfg_key(c) for c in cfgs], 60 if tier == "quick" else 600, C.SEED)
     jobs = []
-    for k, d in enumerate(d1 + d2 + d0 + dt):
+    d3 = gen.sample(gen.l3_docs(), 30000 if tier == "quick" else 300000, C.SEED + 6, keep_short=800)
+    for k, d in enumerate(d1 + d2 + d0 + dt + d3):
         ck = cfgkeys[k % len(cfgkeys)] if k % 3 else extra[(k // 3) % len(extra)]
         jobs.append((ck, "parse", d))
     # every delimiter-dense document (not sampled), alternating the two presets that post-process delimiter runs
